@@ -138,11 +138,17 @@ fn matched_quantities_with_split_ratio(
     available_at_buy_time: Decimal,
     cumulative_ratio_effect: Decimal,
 ) -> (Decimal, Decimal) {
-    let available_at_sell_time = available_at_buy_time / cumulative_ratio_effect;
-    let matched_qty_at_sell_time = remaining_at_sell_time.min(available_at_sell_time);
-    let matched_qty_at_buy_time = matched_qty_at_sell_time * cumulative_ratio_effect;
-
-    (matched_qty_at_sell_time, matched_qty_at_buy_time)
+    // Compare in the acquisition's own units so the quantity claimed from it never
+    // exceeds what is available there through rounding of a non-terminating ratio.
+    let remaining_at_buy_time = remaining_at_sell_time * cumulative_ratio_effect;
+    if remaining_at_buy_time <= available_at_buy_time {
+        (remaining_at_sell_time, remaining_at_buy_time)
+    } else {
+        (
+            available_at_buy_time / cumulative_ratio_effect,
+            available_at_buy_time,
+        )
+    }
 }
 
 fn reserve_future_buy_consumption(
